@@ -44,6 +44,14 @@ def offsets(fields):
     return out
 
 
+def api_stmt(fn, word):
+    """first statement of fn whose text mentions `word` (for the report position)"""
+    for st in iter_stmts(fn.body):
+        if not isinstance(st, (ast.If, ast.For, ast.While, ast.Try, ast.With)) and word in norm(st):
+            return st
+    return fn.body[0]
+
+
 def run(ctx):
     for r, d in (('R-BPCHTABLE', 'reader, writer and second reader agree on the block layouts'),
                  ('R-FIELDROLE', 'positional reader fields f7..f14 = writer fields category..dim; attribute maps inverse'),
@@ -100,74 +108,139 @@ def run(ctx):
         ctx.ok('R-FIELDROLE', 'f13,f14=dim', where, 'dimension triple and start triple inside the 6-int dim field')
     else:
         ctx.violation(Finding('R-FIELDROLE', B, 'ncf2bpch', wb['_datablock_header_type'], 'f13/f14 %s %s do not tile the writer dim field %s' % (d13, d14, dw)), oid='dim')
-    # reader usage: variable <- header['fK']
+    # reader, path-wise with temporaries substituted (paths.py): what the variable built on the data-block path is made from
+    from .. import paths as _paths
     miss = bm.func('_tracer_lookup.__missing__')
-    use = {}
-    for st in iter_stmts(miss.body):
-        if isinstance(st, ast.Assign) and isinstance(st.targets[0], ast.Name):
-            m = re.search(r"header\['(f\d+)'\]", norm(st.value))
-            if m and not isinstance(st.value, ast.BinOp):
-                use[st.targets[0].id] = m.group(1)
-            elif m and st.targets[0].id in ('ord',):
-                use['ord'] = m.group(1)
-    want = {'group': 'f7', 'tracerid': 'f8', 'base_units': 'f9', 'reserved': 'f12'}
+    wmiss = 'src/PseudoNetCDF/%s _tracer_lookup.__missing__' % B
+    block_paths = []        # paths that build the variable of a data block: (path, expansion, constructor call, keywords)
+    tau_paths = {}
+    for pth in _paths.function_paths(miss, limit=20000):
+        if pth.exit[0] != 'return':
+            continue
+        res = _paths.expand(pth)
+        if not res.feasible:
+            continue
+        rst, rnew = [(st, new) for st, new in res.stmts if isinstance(st, ast.Return)][-1]
+        for key in ('tau0', 'tau1'):
+            if res.polarity("key == '%s'" % key) is True:
+                tau_paths.setdefault(key, []).append((rst, ' ; '.join(norm(new) for st, new in res.stmts)))
+        call = rnew.value
+        if isinstance(call, ast.Call) and (dotted(call.func) or '').endswith('PseudoNetCDFVariable') and kw(call, 'values') is not None \
+                and any(isinstance(k, ast.keyword) and k.arg is None for k in call.keywords):
+            kwname = [k.value for k in call.keywords if k.arg is None][0]
+            kws = {}
+            if isinstance(kwname, ast.Name):
+                defs = [new for st, new in res.stmts if isinstance(st, ast.Assign) and any(isinstance(t, ast.Name) and t.id == kwname.id for t in st.targets)]
+                d = defs[-1].value if defs else None
+            else:
+                d = kwname
+            if isinstance(d, ast.Call) and dotted(d.func) == 'dict':
+                kws = dict((k.arg, k.value) for k in d.keywords if k.arg)
+            elif isinstance(d, ast.Dict):
+                kws = dict((const_str(k), v) for k, v in zip(d.keys, d.values))
+            if 'scale' in kws or 'tracerid' in kws:
+                block_paths.append((pth, res, call, kws))
+    if not block_paths:
+        raise AnalysisError('construct not understood: data-block path of _tracer_lookup.__missing__')
+    HDR = "['header'][0]"
+    want = {'category': 'f7', 'tracerid': 'f8', 'base_units': 'f9', 'reserved': 'f12'}
     for nme, fk in sorted(want.items()):
-        if use.get(nme) == fk:
-            ctx.ok('R-FIELDROLE', 'reader %s<-%s' % (nme, fk), 'src/PseudoNetCDF/%s _tracer_lookup.__missing__' % B, 'ok')
-        elif nme in use:
-            ctx.violation(Finding('R-FIELDROLE', B, '_tracer_lookup.__missing__', [s for s in iter_stmts(miss.body) if isinstance(s, ast.Assign) and norm(s.targets[0]) == nme][0],
-                                  'the reader takes %s from header field %s; the writer stores it in %s (%s)' % (nme, use[nme], fk, ROLE.get(fk))), oid=nme)
+        got = set()
+        for pth, res, call, kws in block_paths:
+            v = kws.get(nme)
+            m = re.findall(r"\['header'\]\[0\]\['(f\d+)'\]", norm(v)) if v is not None else []
+            got.add(tuple(sorted(set(m))))
+        if got == set([(fk,)]):
+            ctx.ok('R-FIELDROLE', 'reader %s<-%s' % (nme, fk), wmiss, 'ok')
+        elif got and all(g for g in got):
+            ctx.violation(Finding('R-FIELDROLE', B, '_tracer_lookup.__missing__', block_paths[0][2] if False else api_stmt(miss, nme),
+                                  'the reader takes %s from header field %s; the writer stores it in %s (%s)' % (nme, sorted(got)[0], fk, ROLE.get(fk))), oid=nme)
         else:
-            ctx.undec('R-FIELDROLE', 'reader %s' % nme, where, 'assignment not found')
-    mt = norm(miss)
+            ctx.undec('R-FIELDROLE', 'reader %s' % nme, where, 'keyword not found on the data-block path')
     for key, fk in (('tau0', 'f10'), ('tau1', 'f11')):
-        if re.search(r"elif key == '%s':.*?\['header'\]\['%s'\]" % (key, fk), mt):
-            ctx.ok('R-FIELDROLE', 'reader %s<-%s' % (key, fk), 'src/PseudoNetCDF/%s _tracer_lookup.__missing__' % B, 'ok')
+        tp = tau_paths.get(key, [])
+        if tp and all("['header']['%s']" % fk in t_ for st_, t_ in tp):
+            ctx.ok('R-FIELDROLE', 'reader %s<-%s' % (key, fk), wmiss, 'ok')
         else:
-            ctx.violation(Finding('R-FIELDROLE', B, '_tracer_lookup.__missing__', miss.body[0], 'variable %s is not read from header field %s' % (key, fk)), oid=key)
-    # writer field <- attribute ; reader attribute (kwds) <- variable
-    wt = ' ; '.join(norm(s) for s in iter_stmts(wfn.body))
-    pairs = [("header['tracerid'] = var.tracerid", 'tracerid=tracerid'), ("header['category'] = var.category.ljust(40)", 'category=group'),
-             ("header['unit'] = var.base_units", 'base_units=base_units'), ("header['tau0'] = tau0", None), ("header['tau1'] = tau1", None)]
-    for wpat, rpat in pairs:
-        okw = wpat in wt
-        okr = rpat is None or rpat in mt
+            ctx.violation(Finding('R-FIELDROLE', B, '_tracer_lookup.__missing__', tp[0][0] if tp else miss.body[0], 'variable %s is not read from header field %s' % (key, fk)), oid=key)
+    # writer field <- attribute (store table with aliases resolved) ; reader keyword <- header field (above)
+    wtable = _paths.stores_by_path(wfn, keep=('var', 'tau0', 'tau1', 'ncffile'))
+    mt = norm(miss)
+
+    def stored(field):
+        return sorted(set(v for k, vs in wtable.items() if k.endswith("['header']['%s']" % field) for v, st_ in vs))
+    pairs = [('tracerid', 'var.tracerid', 'tracerid'), ('category', 'var.category.ljust(40)', 'category'), ('unit', 'var.base_units', 'base_units'), ('tau0', 'tau0', None), ('tau1', 'tau1', None)]
+    for field, wval, rkw in pairs:
+        okw = stored(field) == [wval]
+        okr = rkw is None or all(rkw in kws for pth, res, call, kws in block_paths)
+        wpat = "header['%s'] = %s" % (field, wval)
         if okw and okr:
-            ctx.ok('R-FIELDROLE', wpat[:28], where, 'writer %s ; reader %s' % (wpat, rpat))
+            ctx.ok('R-FIELDROLE', wpat[:28], where, 'writer %s ; reader keyword %s' % (wpat, rkw))
         else:
-            ctx.violation(Finding('R-FIELDROLE', B, 'ncf2bpch', wfn.body[0], 'attribute/field maps are not inverse: writer has %r: %s ; reader has %r: %s' % (wpat, okw, rpat, okr)), oid=wpat[:28])
-    # ---- R-SCALEINV
-    def branches(fn, recv):
-        """-> (if node, raw-branch stmts, scaling-branch stmts) for the If on <recv>.noscale"""
-        for st in iter_stmts(fn.body):
-            if isinstance(st, ast.If):
-                t = st.test
-                if norm(t) == recv + '.noscale':
-                    return st, st.body, st.orelse
-                if isinstance(t, ast.UnaryOp) and isinstance(t.op, ast.Not) and norm(t.operand) == recv + '.noscale':
-                    return st, st.orelse, st.body
-        return None, None, None
-    rnode, r_raw, r_sc = branches(miss, 'self')
-    wnode, w_raw, w_sc = branches(wfn, 'ncffile')
-    if rnode is None or wnode is None:
-        raise AnalysisError('construct not understood: noscale branches of the bpch reader/writer')
-    r_then, r_else = ' ; '.join(norm(s2) for s2 in r_raw), ' ; '.join(norm(s2) for s2 in r_sc)
-    w_then, w_else = ' ; '.join(norm(s2) for s2 in w_raw), ' ; '.join(norm(s2) for s2 in w_sc)
-    okr = '* scale' in r_else and '*' not in r_then and '/' not in r_then
-    okw = '/ var.scale' in w_else and '/' not in w_then and '*' not in w_then and not any(isinstance(s2, ast.AugAssign) for s2 in iter_stmts(w_sc))
-    if okr:
-        ctx.ok('R-SCALEINV', 'reader', 'src/PseudoNetCDF/%s _tracer_lookup.__missing__' % B, 'noscale: raw ; else: raw * scale')
+            ctx.violation(Finding('R-FIELDROLE', B, 'ncf2bpch', wfn.body[0], 'attribute/field maps are not inverse: writer stores %s in field %s (expected %s) ; reader keyword %r present: %s' % (stored(field), field, wval, rkw, okr)), oid=wpat[:28])
+    # ---- R-SCALEINV: path-wise - the values of the block variable are the raw field when noscale, raw * scale otherwise
+    okr, rnode = True, None
+    nraw = nsc = 0
+    scale_ok = True
+    for pth, res, call, kws in block_paths:
+        v = kw(call, 'values')
+        ns = res.polarity('self.noscale')
+        mults = [x for x in ast.walk(v) if isinstance(x, ast.BinOp) and isinstance(x.op, (ast.Mult, ast.Div))]
+        if ns is True:
+            nraw += 1
+            if mults:
+                okr, rnode = False, call
+        elif ns is False:
+            nsc += 1
+            if not (isinstance(v, ast.BinOp) and isinstance(v.op, ast.Mult) and "['SCALE']" in norm(v.right) + norm(v.left) and len(mults) == 1):
+                okr, rnode = False, call
+            sc = v.right if isinstance(v, ast.BinOp) and "['SCALE']" in norm(v.right) else (v.left if isinstance(v, ast.BinOp) else v)
+            st_ = norm(sc)
+            if not (st_.startswith('self._tracer_data[') and HDR + "['f8'] +" in st_ and "self._diag_data.get(" in st_ and ".get('offset', 0)" in st_):
+                scale_ok = False
+        else:
+            okr, rnode = False, call
+    if okr and nraw and nsc:
+        ctx.ok('R-SCALEINV', 'reader', wmiss, 'noscale: raw ; else: raw * scale (%d + %d paths)' % (nraw, nsc))
     else:
-        ctx.violation(Finding('R-SCALEINV', B, '_tracer_lookup.__missing__', rnode, 'the reader does not multiply by scale exactly on the not-noscale branch'))
-    if okw:
+        ctx.violation(Finding('R-SCALEINV', B, '_tracer_lookup.__missing__', api_stmt(miss, 'noscale'), 'the reader does not multiply by scale exactly on the not-noscale branch'))
+    # writer: what is stored into the data field
+    wok, wnode = True, None
+    nwr = nws = 0
+    for lp in [st for st in iter_stmts(wfn.body) if isinstance(st, ast.For)]:
+        for pth in _paths.enumerate_paths(lp.body, limit=20000):
+            res = _paths.expand(pth, keep=('var', 'vals', 'ncffile'))
+            if not res.feasible:
+                continue
+            for st, new in res.stmts:
+                if isinstance(st, ast.AugAssign) and "['data']" in norm(new.target):
+                    wok, wnode = False, st
+                if not (isinstance(new, ast.Assign) and any("['data']" in norm(t) for t in new.targets)):
+                    continue
+                ns = res.polarity('ncffile.noscale')
+                divs = [x for x in ast.walk(new.value) if isinstance(x, ast.BinOp) and isinstance(x.op, (ast.Mult, ast.Div))]
+                if ns is True:
+                    nwr += 1
+                    if divs:
+                        wok, wnode = False, st
+                elif ns is False:
+                    nws += 1
+                    if not (isinstance(new.value, ast.BinOp) and isinstance(new.value.op, ast.Div) and norm(new.value.right) == 'var.scale' and len(divs) == 1):
+                        wok, wnode = False, st
+                else:
+                    wok, wnode = False, st
+    if any(isinstance(s2, ast.AugAssign) and isinstance(s2.op, (ast.Div, ast.Mult)) for s2 in iter_stmts(wfn.body)):
+        wok = False
+        wnode = wnode or [s2 for s2 in iter_stmts(wfn.body) if isinstance(s2, ast.AugAssign) and isinstance(s2.op, (ast.Div, ast.Mult))][0]
+    if wok and nwr and nws:
         ctx.ok('R-SCALEINV', 'writer', 'src/PseudoNetCDF/%s ncf2bpch' % B, 'noscale: raw ; else: vals / var.scale (new array)')
     else:
-        ctx.violation(Finding('R-SCALEINV', B, 'ncf2bpch', wnode, 'the writer does not divide by var.scale exactly on the not-noscale branch with a new array '
+        ctx.violation(Finding('R-SCALEINV', B, 'ncf2bpch', wnode if wnode is not None else wfn.body[0], 'the writer does not divide by var.scale exactly on the not-noscale branch with a new array '
                               '(an in-place division changes the variables of the file being written)'))
-    if "ord = header['f8'] + offset" in mt and "scale = self._tracer_data[ord]['SCALE']" in mt and "offset = self._diag_data.get(group, {}).get('offset', 0)" in mt:
-        ctx.ok('R-SCALEINV', 'scale key', 'src/PseudoNetCDF/%s _tracer_lookup.__missing__' % B, 'tracer id + category offset')
+    if scale_ok and nsc:
+        ctx.ok('R-SCALEINV', 'scale key', wmiss, 'tracer id + category offset')
     else:
-        ctx.violation(Finding('R-SCALEINV', B, '_tracer_lookup.__missing__', miss.body[0], 'the scale row is not looked up by tracer id + category offset'))
+        ctx.violation(Finding('R-SCALEINV', B, '_tracer_lookup.__missing__', api_stmt(miss, 'SCALE'), 'the scale row is not looked up by tracer id + category offset'))
     # the writer never writes its input (provenance; bpch variables are 4-D, var[ti] is a view)
     p = Prov(bm, wfn, receiver=None, file_params=['ncffile'], int_index_views=True)
     bad = [ev for ev in p.run() if ev.kind in ('aug-name', 'aug-sub', 'store-sub', 'inplace-call', 'out-kw') and ev.base[0] in ('VIEW', 'SAME') and is_input(ev.base[1])]
